@@ -5,6 +5,7 @@ Real: Grammar(), the generated modules, sys.modules/importlib.  Stub: the users 
 """
 import gc
 import json
+import os
 import sys
 import threading
 import types
@@ -368,6 +369,102 @@ def scramble(v):
     return n
 
 
+# ------------------------------------------------------------------------------- pristine source server
+
+_REF_SERVER = None      # (request write fd, response read fd) of a process that has never constructed a grammar
+
+
+def _send(fd, obj):
+    import pickle
+    import struct
+    data = pickle.dumps(obj, protocol=pickle.HIGHEST_PROTOCOL)
+    os.write(fd, struct.pack('<Q', len(data)))
+    off = 0
+    while off < len(data):
+        off += os.write(fd, data[off:off + (1 << 16)])
+
+
+def _recv(fd):
+    import pickle
+    import struct
+
+    def rd(n):
+        buf = b''
+        while len(buf) < n:
+            b = os.read(fd, n - len(buf))
+            if not b:
+                raise EOFError
+            buf += b
+        return buf
+    n = struct.unpack('<Q', rd(8))[0]
+    return pickle.loads(rd(n))
+
+
+def _generate_sources(chain):
+    """In the calling process: the source sourcer generates for every description of the chain."""
+    out = []
+    with isolated_registry():
+        try:
+            for desc in chain:
+                m = compile_desc(desc, watch=False, include_source=True)
+                out.append((_named(desc), m._source_code, m.__doc__))
+        except Exception as e:
+            return ('fail', type(e).__name__, str(e)[:200])
+    return out
+
+
+def start_ref_server():
+    """Fork a server from the calling process, which must be pristine (sourcer imported, no grammar
+    ever constructed).  For every request the server forks a child that generates the sources of
+    one chain with the real Grammar() -- in a process where nothing else was ever constructed --
+    and sends them back.  That is the reference meaning of 'depends only on the description'."""
+    global _REF_SERVER
+    if _REF_SERVER is not None:
+        return
+    import sourcer  # noqa: F401  (imported in the parent, so that the server need not)
+    q_r, q_w = os.pipe()
+    a_r, a_w = os.pipe()
+    pid = os.fork()
+    if pid == 0:
+        try:
+            os.close(q_w)
+            os.close(a_r)
+            import signal
+            signal.signal(signal.SIGALRM, signal.SIG_DFL)
+            while True:
+                try:
+                    chain = _recv(q_r)
+                except EOFError:
+                    break
+                signal.alarm(3600)
+                c = os.fork()
+                if c == 0:
+                    try:
+                        signal.alarm(300)
+                        try:
+                            res = _generate_sources(chain)
+                        except BaseException as e:
+                            res = ('fail', type(e).__name__, str(e)[:200])
+                        _send(a_w, res)
+                    finally:
+                        os._exit(0)
+                _, status = os.waitpid(c, 0)
+                if status != 0:
+                    _send(a_w, ('fail', 'ServerChildDied', str(status)))
+        finally:
+            os._exit(0)
+    os.close(q_r)
+    os.close(a_w)
+    _REF_SERVER = (q_w, a_r)
+
+
+def pristine_sources(chain):
+    if _REF_SERVER is None:
+        return _generate_sources(chain)
+    _send(_REF_SERVER[0], tuple(chain))
+    return _recv(_REF_SERVER[1])
+
+
 # ------------------------------------------------------------------------------- references
 
 _CODE_CACHE = {}      # chain (tuple of descs) -> list of (name, code, doc) or ('fail', exc info)
@@ -401,20 +498,19 @@ def chain_codes(chain, fresh=False):
     hit = None if fresh else _CODE_CACHE.get(key)
     if hit is not None:
         return hit
-    out = []
-    with isolated_registry():
-        try:
-            for desc in chain:
-                m = compile_desc(desc, watch=False, include_source=True)
-                src = m._source_code
-                name = _named(desc)
-                code = compile(src, '<%s>' % (name or 'grammar'), 'exec', optimize=2)
-                seen, cs = set(), []
-                mon._walk(code, seen, cs)
-                mon.watch(cs)
-                out.append((name, code, m.__doc__))
-        except Exception as e:
-            out = ('fail', type(e).__name__, str(e)[:200])
+    # fresh=True: generated now, in this process (with whatever it has constructed before);
+    # otherwise: generated by the pristine source server, if one is running
+    srcs = _generate_sources(chain) if fresh else pristine_sources(chain)
+    if isinstance(srcs, tuple):
+        out = srcs
+    else:
+        out = []
+        for name, src, doc in srcs:
+            code = compile(src, '<%s>' % (name or 'grammar'), 'exec', optimize=2)
+            seen, cs = set(), []
+            mon._walk(code, seen, cs)
+            mon.watch(cs)
+            out.append((name, code, doc))
     if fresh:
         return out
     if len(_CODE_CACHE) >= _CODE_CACHE_MAX:
